@@ -6,11 +6,11 @@ from __future__ import annotations
 import ast
 import re
 
-from ..astutil import call_attr, calls_in, unparse, walk_local
+from ..astutil import call_attr, call_name, calls_in, unparse, walk_local
 from ..cfg import CFG
 from ..dataflow import resolved_text
 from ..report import Finding, Report
-from ..srcindex import AnalysisError, Index
+from ..srcindex import AnalysisError, Index, raw_funcs
 
 CO = "xdsl/backend/llvm/convert_op.py"
 CV = "xdsl/backend/llvm/convert.py"
@@ -36,6 +36,77 @@ def _dict(idx: Index, mod: str, name: str) -> ast.Dict:
 
         raise AnchorMissing(f"{mod}: table {name} not found")
     return v
+
+
+def check_structure(idx: Index, rep: Report) -> None:
+    # ---- every block of the function is converted (blocks and phis are pre-created for all of them)
+    r = rep.rule("C23.R5", "every block that was pre-created in the LLVM function gets its operations converted (an empty LLVM block has no terminator and the module is rejected)", floor=1)
+    f = idx.func(CV, "_convert_func")
+    cfg = CFG(f.node)
+    conv = [c for c in calls_in(f.node) if call_name(c) == "convert_op"]
+    if not conv:
+        raise AnalysisError(f"{f.fq}: convert_op call not found")
+    from ..astutil import parent_map
+
+    pm = parent_map(f.node)
+    for c in conv:
+        loops = []
+        n_ = c
+        while id(n_) in pm:
+            n_ = pm[id(n_)]
+            if isinstance(n_, (ast.For, ast.While)):
+                loops.append(n_)
+        inst = f"{f.fq}:{c.lineno - f.node.lineno}"
+        outer = loops[-1] if loops else None
+        src = resolved_text(cfg, outer.iter, cfg.node_of(outer)) if isinstance(outer, ast.For) else None
+        if src is not None and re.fullmatch(r"\w+\.body\.blocks|\w+\.regions\[0\]\.blocks|block_map(\.keys\(\))?|list\(\w+\.body\.blocks\)", src):
+            r.ok(inst, f"{f.module.relpath}:{c.lineno} operations converted for every block of `{src}`")
+        else:
+            r.fail(inst, Finding("C23.R5", f.fq, "block-not-converted", f"`{unparse(c)[:50]}` runs inside `{unparse(outer).splitlines()[0] if outer is not None else 'no loop'}`, which does not visit every block of the function body (blocks and phis are created for all of them): a block that is not visited - e.g. one unreachable from the entry - stays empty, and LLVM rejects a block without terminator", f"{f.module.relpath}:{c.lineno}"))
+
+    # ---- nested array types
+    r = rep.rule("C23.R6", "!llvm.array<N x T> becomes [N x convert(T)]: the outermost array keeps the outermost size", floor=1)
+    g = idx.func("xdsl/backend/llvm/convert_type.py", "_convert_array_type")
+    prm = g.node.args.args[0].arg
+    gcfg = CFG(g.node)
+    rets = [x for x in walk_local(g.node) if isinstance(x, ast.Return) and x.value is not None]
+    if not rets:
+        raise AnalysisError(f"{g.fq}: no return")
+    for rt in rets:
+        txt = resolved_text(gcfg, rt.value, gcfg.node_of(rt))
+        inst = f"{g.fq}:{rt.lineno - g.node.lineno}"
+        m_ = re.fullmatch(rf"ir\.ArrayType\(convert_type\({prm}\.type\), {prm}\.size\.data\)", txt)
+        if m_:
+            r.ok(inst, f"{g.loc} `{txt}`")
+            continue
+        # iterative peeling: sizes collected from the outside in must be applied from the inside out
+        loops_ = [w for w in walk_local(g.node) if isinstance(w, ast.For) and any(isinstance(c_, ast.Call) and unparse(c_.func) == "ir.ArrayType" for c_ in ast.walk(w))]
+        coll = [w for w in walk_local(g.node) if isinstance(w, ast.While) and any(call_attr(c_) == "append" and ".size.data" in unparse(c_) for c_ in calls_in(w))]
+        if len(loops_) == 1 and len(coll) == 1:
+            it = unparse(loops_[0].iter)
+            if it.startswith("reversed("):
+                r.ok(inst, f"{g.loc} sizes collected outermost-first and applied in reverse")
+            else:
+                r.fail(inst, Finding("C23.R6", g.fq, "array-dims-reversed", f"the sizes are collected while walking from the outermost array inwards and applied in the same order (`for {unparse(loops_[0].target)} in {it}`): the last one applied - the INNERMOST size - becomes the outermost dimension, so array<2 x array<3 x T>> becomes [3 x [2 x T]] and every nested-array address is computed with the wrong layout", f"{g.module.relpath}:{loops_[0].lineno}"))
+        else:
+            raise AnalysisError(f"{g.fq}: returned type `{txt[:70]}` is not ir.ArrayType(convert_type({prm}.type), {prm}.size.data)")
+
+    # ---- no memoisation keyed on attribute equality
+    r = rep.rule("C23.R7", "no function of the LLVM conversion path is memoised on xDSL attributes (FloatAttr(0.0) == FloatAttr(-0.0), equal integer attributes of different signedness spelling: the first converted constant would be returned for the other)", floor=1)
+    n_fn = 0
+    for rel in (CO, CV, "xdsl/backend/llvm/convert_type.py"):
+        for fi in raw_funcs(idx.module(rel)):
+            n_fn += 1
+            decs = [unparse(d_) for d_ in fi.node.decorator_list]
+            memo = [d_ for d_ in decs if re.search(r"\b(cache|lru_cache|cached)\b", d_)]
+            takes_attr = any(a_.annotation is not None and re.search(r"Attribute|Attr\b|FloatAttr|IntegerAttr|DenseIntOrFPElementsAttr", unparse(a_.annotation)) for a_ in fi.node.args.args)
+            if memo and takes_attr and "const" in fi.name.lower():
+                r.fail(fi.fq, Finding("C23.R7", fi.fq, "memoised-on-attribute", f"`@{memo[0]}` memoises {fi.name} on its attribute arguments: attribute equality merges +0.0 and -0.0 (FloatData compares with ==), so after `+0.0` was converted a later `-0.0` of the same type silently becomes `+0.0` (1/x flips from -inf to +inf)", fi.loc))
+            elif memo and takes_attr:
+                r.fail(fi.fq, Finding("C23.R7", fi.fq, "memoised-on-attribute", f"`@{memo[0]}` memoises {fi.name} on attribute equality, which is coarser than the LLVM values / types the attributes denote", fi.loc))
+    r.ok("sweep", f"{n_fn} functions of the LLVM conversion modules scanned for memoisation decorators")
+
+
 
 
 def check(idx: Index, rep: Report, tier: str) -> str:
@@ -209,6 +280,7 @@ def check(idx: Index, rep: Report, tier: str) -> str:
     if n_conv < 10:
         raise AnalysisError(f"only {n_conv} converters found in {CO}")
 
+    rep.run(check_structure, idx, rep)
     return (
         "Table agreement of the LLVM translation tables with the llvm dialect's own operation names (binary ops, casts, "
         "intrinsics, argument attributes), predicate tables against the meaning of the mnemonics, dispatcher coverage and phi "
